@@ -309,7 +309,11 @@ def run (kind : Char) (rest : String) : Option String :=
 /-- oracle verdict (`ok` / `FAIL <ids> …`) given the case, the configuration prefix and the real answer -/
 def oracle (kind : Char) (_cfg rest real : String) : Option String :=
   match kind, words rest with
-  | 'V', name :: ws => some (withTy name fun t mustEq => oracleV t name mustEq ws real.trimAscii.toString)
+  | 'V', name :: ws =>
+    -- operators must say the same before and after an observer (hash_value) has run on an operand
+    if (real.splitOn "unstable-after-hash").length > 1 then
+      some s!"FAIL C15 {name} comparison-changes-after-hashing-an-operand {real.take 120}"
+    else some (withTy name fun t mustEq => oracleV t name mustEq ws real.trimAscii.toString)
   | 'W', _ => some "ok"   -- a hash-MISMATCH is a broken tie, not a broken law: reported by the correspondence
   | _, _ => none
 
